@@ -130,6 +130,18 @@ def quick_pairs():
     return q
 
 
+def dynamic_check_units(tier, prop=None, prefix='c06'):
+    """the body of detail::dynamic_check in the build configurations its text depends on: default and NDEBUG (release); every
+    "or the operation aborts" clause of the module rests on it returning only if the condition holds"""
+    out = []
+    for cfg, pre in (('', ''), ('_release_build', '#define NDEBUG\n')):
+        it = dynamic_check_body_inst(tier)
+        it.name = '%s_dynamic_check_body%s' % (prefix, cfg)
+        it.prop = prop or PROP
+        out.append(Unit('%s_dynamic_check%s' % ((prop or PROP), cfg), [it], pre_cpp=pre))
+    return out
+
+
 def units(tier):
     names = list(CXX_INTS)
     pairs = quick_pairs() if tier == 'quick' else [(a, b) for a in names for b in names]
@@ -140,7 +152,6 @@ def units(tier):
         apairs += [('long', 'unsigned long', 2), ('unsigned char', 'signed char', 8), ('unsigned long', 'unsigned int', 3), ('char', 'int', 4)]
     insts += [array_pair_inst(a, b, n, tier) for a, b, n in apairs]
     insts += [array2_pair_inst('int', 'unsigned int', 2, 2, tier), array2_pair_inst('unsigned short', 'short', 3, 2, tier), array2_pair_inst('int', 'int', 2, 3, tier)]
-    insts.append(dynamic_check_body_inst(tier))
     for d_, a_, b_ in [('TO_APPLICATION', 'int', 'long'), ('TO_APPLICATION', 'unsigned int', 'unsigned long'), ('TO_SANDBOX', 'int', 'long'), ('TO_APPLICATION', 'long', 'int'), ('NO_CHANGE', 'short', 'long long')]:
         insts.append(non_class_inst(d_, a_, b_, tier))
     # "passing an argument of the parameter's own type, returning results": the invocation glue of C11 for signatures whose
@@ -160,7 +171,7 @@ def units(tier):
         it.name = it.name.replace('c07_', 'c06_')
         it.prop = PROP
         insts.append(it)
-    return [Unit('C06_fundamental', insts), Unit('C06_call_arguments', ginsts)]
+    return [Unit('C06_fundamental', insts), Unit('C06_call_arguments', ginsts)] + dynamic_check_units(tier)
 
 
 ASSUMPTIONS = [
